@@ -2400,7 +2400,7 @@ class RawAlgorithmsMixIn:
         else:
             D,P,M,N = v_data.shape
             if out is None:
-                out = numpy.zeros((D,P,N),dtype=v_data.dtype)
+                out = numpy.zeros((D,P,min(M,N)),dtype=v_data.dtype)
 
             for d in range(D):
                 for p in range(P):
